@@ -417,6 +417,10 @@ def parseIndex (c : Codec) (cs : List Case) (t : Text) : Res (List Pkg) :=
 def renderIndex (c : Codec) (rows : List Row) (ps : List Pkg) : Text :=
   ps.flatMap fun p => if p.name = [] then [] else recText c rows p
 
+/-- what the APKINDEX format carries: everything but `replaces` (apk-tools writes `r:` only in the
+installed db; neither the template nor `ParsePackageIndex` has it) -/
+def indexProj (p : Pkg) : Pkg := { p with replaces := [] }
+
 /-! ## paths (`path/filepath` on Unix) -/
 
 def cleanComps (rooted : Bool) : List Text → List Text → List Text
